@@ -231,12 +231,12 @@ func (g *Chaos) Fn(d int) jast.Node {
 	r := g.R
 	switch r.Intn(7) {
 	case 0, 1, 2:
-		return &jast.Var{Name: g.builtin().Name}
+		return &jast.Var{Name: g.builtinFn().Name}
 	case 3:
 		return g.Lambda(d)
 	case 4:
 		// partial application
-		b := g.builtin()
+		b := g.builtinFn()
 		n := b.Max
 		if n < 1 {
 			n = 2
@@ -259,7 +259,19 @@ func (g *Chaos) Fn(d int) jast.Node {
 	if len(g.fvars) > 0 {
 		return &jast.Var{Name: g.fvars[r.Intn(len(g.fvars))]}
 	}
-	return &jast.Var{Name: g.builtin().Name}
+	return &jast.Var{Name: g.builtinFn().Name}
+}
+
+// builtinFn picks a built-in for positions where the generator does not
+// control the arguments (function values, partials, chain targets): $pad is
+// left out there because its width is a size-like parameter.
+func (g *Chaos) builtinFn() Builtin {
+	for {
+		b := g.builtin()
+		if b.Name != "pad" {
+			return b
+		}
+	}
 }
 
 func (g *Chaos) builtin() Builtin {
@@ -496,7 +508,7 @@ func (g *Chaos) Expr(d int) jast.Node {
 		case 0:
 			rhs = g.Fn(d + 1)
 		case 1:
-			b := g.builtin()
+			b := g.builtinFn()
 			hi := b.Max
 			if hi < 0 {
 				hi = 2
